@@ -3,6 +3,7 @@
   Property theorems only; helper lemmas live in Proofs/.
 -/
 import DpapiNg.Proofs.Asn1Rt
+import DpapiNg.Proofs.Asn1Oid
 namespace DpapiNg.C07
 open DpapiNg.Asn1
 
@@ -76,6 +77,13 @@ theorem readInteger_packInteger (v : Int) (rest : Bytes) (hc : (packIntegerConte
 theorem octetNumber_roundtrip (n : Nat) (hn : 0 < n) (rest : Bytes) :
     unpackOctetNumber (packOctetNumber n ++ rest) = .ok (n, (packOctetNumber n).length) :=
   unpack_pack_octetNumber n hn rest
+
+/-- OBJECT IDENTIFIER round trip with exact consumption: every OID with first arc ≤ 2, second arc ≤ 39 and
+    further arcs of any size (multi-octet base-128 arcs included), any trailing bytes. -/
+theorem readOid_packOid (a b : Nat) (rest : List Nat) (ha : a ≤ 2) (hb : b ≤ 39) (tail : Bytes)
+    (hlen : (oidContent a b rest).length < 256 ^ 127) :
+    ∃ bs, packOid (a :: b :: rest) = .ok bs ∧ readOid (bs ++ tail) = .ok (a :: b :: rest, bs.length) :=
+  ⟨_, packOid_ok a b rest ha hb, readOid_tlv a b rest ha hb tail hlen⟩
 
 /-- OCTET STRING (and every reader that is a bare `_validate_tag`) round-trips. -/
 theorem readOctetString_pack (c rest : Bytes) (hc : c.length < 256 ^ 127) :
